@@ -190,6 +190,16 @@ func (v VerifReceiver) Close()                     { v.r.close() }
 func (v VerifReceiver) Cancel()                    { v.r.cancel() }
 func (v VerifReceiver) Dequeue() (VerifItem, bool) { return v.r.dequeue() }
 
+// Locked reports whether the receiver's mutex is held at this instant (a probe
+// for "no lock is held across the window-update callback"; never blocks).
+func (v VerifReceiver) Locked() bool {
+	if v.r.mu.TryLock() {
+		v.r.mu.Unlock()
+		return false
+	}
+	return true
+}
+
 // State reports window, number of queued items, queued bytes and the flags.
 func (v VerifReceiver) State() (window uint32, items int, bytes uint, closed, cancelled bool) {
 	v.r.mu.Lock()
